@@ -328,7 +328,8 @@ func c11Histories(run *vfRun, cfg *c11Cfg, ci int) []c11Hist {
 			}
 		}
 		h.Method = []string{"GET", "POST"}[n%2]
-		h.Rd = []string{"", "/after?x=1", "https://evil.example/", "/"}[(n/2)%4]
+		// rd: none / allowed relative / foreign absolute (no whitelist) / "/" / scheme-relative / under the proxy prefix (both rejected by the validator)
+		h.Rd = []string{"", "/after?x=1", "https://evil.example/", "/", "//evil.test/x", cfg.Prefix + "/sign_in"}[(n/2)%6]
 		hp := cfg.Hosts[n%len(cfg.Hosts)]
 		h.HostLogin, h.HostOut = hp[0], hp[1]
 		if len(cfg.Rewritten) > 0 && (n%4 == 3 || (cfg.ReverseProxy && n%4 != 0)) {
@@ -477,6 +478,13 @@ func c11FaultFor(spec, op string) (kind string, hold time.Duration, hit bool) {
 		if op == "DEL" {
 			return gd[len(gd)-1], 0, true
 		}
+	case strings.HasPrefix(spec, "GETSLOW"):
+		// reads of the ticket are held for <ms> milliseconds and then served; the DEL is not touched
+		ms := 0
+		fmt.Sscanf(spec[7:], "%d", &ms)
+		if op == "GET" {
+			return "", time.Duration(ms) * time.Millisecond, true
+		}
 	case strings.HasPrefix(spec, "SLOW"):
 		k := strings.IndexByte(spec, ':')
 		ms := 0
@@ -505,6 +513,8 @@ func c11FaultClass(spec string) string {
 		return "outage"
 	case strings.HasPrefix(spec, "GET:"):
 		return "read"
+	case strings.HasPrefix(spec, "GETSLOW"):
+		return "abandoned"
 	case strings.HasPrefix(spec, "SLOW"):
 		return "slow"
 	}
@@ -1039,6 +1049,16 @@ func (r *c11Runner) one(cfg *c11Cfg, h c11Hist) {
 		}
 	}
 	if !success && h.Fault == "" {
+		// a well-formed sign-out of a logged-in browser against a healthy store was REFUSED (4xx): whatever the reason given
+		// (e.g. the rd parameter), the property demands that a sign-out ends the session — with and without rd, allowed or not.
+		if so.Code >= 400 && so.Code < 500 {
+			if ok, what := authedFn(b.Jar.For(h.HostOut, cfg.Base+"replay", false), true); ok {
+				run.Count("sign_outs_refused_session_kept", 1)
+				run.Violation("c11:sign-out-refused-and-session-kept", fmt.Sprintf("[%s] %s sign-out with rd=%q against a healthy store was answered %d with %d Set-Cookie line(s); nothing was removed: the browser's next request is still authenticated (%s)", cfg.Label, h.Method, h.Rd, so.Code, len(so.SetCookies()), what),
+					detail(map[string]interface{}{"status": so.Code, "rd": h.Rd, "redis_key_still_present": keyLeft, "set_cookie": c11Lines(so.SetCookies())}))
+				return
+			}
+		}
 		run.Inconclusive(fmt.Sprintf("fault-free sign-out answered %d", so.Code))
 		return
 	}
@@ -1315,6 +1335,129 @@ func (r *c11Runner) race(cfg *c11Cfg, i int) {
 	run.SampleEvery(97, func() interface{} { return map[string]interface{}{"config": cfg.Label, "race": trace} })
 }
 
+// abandon: Redis store behind the RESP front. The client of the sign-out request gives up (its request context is CANCELLED, as
+// net/http does when the connection goes away) while an earlier step of the same request — the session chain's read of the
+// ticket — is held by the store; the handler runs on and reaches the deletion with a context that is already done. The answer
+// it produces reaches nobody; what is judged is the state afterwards against that answer: EITHER the stored session is gone
+// (no archived cookie authenticates) OR the handler answered with an error — never "success redirect + session still stored".
+// Nothing is measured: if the cancellation lands late the sign-out is an ordinary one and is judged by the same rule.
+func (r *c11Runner) abandon(cfg *c11Cfg, i int) {
+	run, p := r.run, cfg.p
+	no := atomic.AddInt64(&c11Seq, 1)
+	sub := fmt.Sprintf("c11-abandon-%d", no)
+	host := cfg.Hosts[i%len(cfg.Hosts)][0]
+	method := []string{"GET", "POST"}[i%2]
+	rd := []string{"", "/after?x=1", "https://evil.example/"}[(i/2)%3]
+	holdMs := []int{1500, 2200}[(i/2)%2]
+	r.tab.mu.Lock()
+	r.tab.pads[sub] = []int{c11PadClasses[i%4]}
+	r.tab.mu.Unlock()
+	b := vfNewBrowser(host)
+	defer func() {
+		for _, c := range b.Jar.Archive {
+			if k := c11TicketKey(c.Value); k != "" && c11IsSession(c) {
+				r.accountFor(k) // whatever the outcome: no browser completed a sign-out it saw the answer of
+			}
+		}
+	}()
+	start := b.Get(p, cfg.Prefix+"/start?rd="+vfQueryEscape(cfg.Base))
+	if start.Code != 302 {
+		run.Inconclusive(fmt.Sprintf("login start answered %d", start.Code))
+		return
+	}
+	code, ar, err := r.w.IdP.Authorize(start.Location(), vfIdentity{Sub: sub, Email: "x@example.com", Groups: []string{"g"}, PreferredUsername: "pu-" + sub})
+	if err != nil {
+		run.Inconclusive("login start failed")
+		return
+	}
+	if cb := b.Get(p, cfg.Prefix+"/callback?code="+vfQueryEscape(code)+"&state="+vfQueryEscape(ar.Params.Get("state"))); cb.Code != 302 {
+		run.Inconclusive(fmt.Sprintf("login callback answered %d", cb.Code))
+		return
+	}
+	if ui := b.Get(p, cfg.Prefix+"/userinfo"); ui.Code != 200 {
+		run.Inconclusive(fmt.Sprintf("abandon: not authenticated after login (%d)", ui.Code))
+		return
+	}
+	keys := map[string]bool{}
+	for _, c := range b.Jar.Archive {
+		if k := c11TicketKey(c.Value); k != "" && c11IsSession(c) && r.w.Redis().Exists(k) {
+			keys[k] = true
+		}
+	}
+	if len(keys) == 0 {
+		run.Inconclusive("no live ticket key before sign-out")
+		return
+	}
+	spec := fmt.Sprintf("GETSLOW%d", holdMs)
+	for k := range keys {
+		r.faults.set(k, spec)
+	}
+	target := cfg.Prefix + "/sign_out"
+	var req *vfReq
+	if method == "POST" {
+		body := ""
+		if rd != "" {
+			body = "rd=" + vfQueryEscape(rd)
+		}
+		req = vfNewReq("POST", target).WithBody("application/x-www-form-urlencoded", []byte(body))
+	} else {
+		if rd != "" {
+			target += "?rd=" + vfQueryEscape(rd)
+		}
+		req = vfGET(target)
+	}
+	req.WithHost(host).H("Cookie", vfCookieHeader(b.Jar.For(host, cfg.Prefix+"/sign_out", false)))
+	req.GiveUpAfter = 200 * time.Millisecond
+	so := p.Do(req) // returns when the handler is done; the client left after 200 ms, so nothing of this reaches the jar
+	for k := range keys {
+		r.faults.del(k)
+	}
+	run.Count("abandoned_sign_outs", 1)
+	run.Count(fmt.Sprintf("abandoned_sign_out_status_%d", so.Code), 1)
+	detail := map[string]interface{}{"config": cfg.Label, "flags": p.Flags, "subject": sub, "host": host, "method": method, "rd": rd, "status": so.Code, "location": so.Location(),
+		"how_to_replay": fmt.Sprintf("Redis store: login; %s <prefix>/sign_out with the browser's cookies on a request whose context is cancelled 200 ms after it started, while the store holds the GET of the ticket for %d ms (the DEL is served normally); wait for the handler to return; then look at the key and replay the cookies", method, holdMs)}
+	if so.Panic != "" {
+		detail["stack"] = so.Stack
+		run.Violation("c11:panic-in-sign-out", fmt.Sprintf("[%s] abandoned sign-out panicked: %s", cfg.Label, vfTrunc(so.Panic, 100)), detail)
+		return
+	}
+	keyLeft := ""
+	for k := range keys {
+		if r.w.Redis().Exists(k) {
+			keyLeft = k
+		}
+	}
+	auth := ""
+	for _, c := range b.Jar.Archive {
+		if !c11IsSession(c) {
+			continue
+		}
+		ui := p.Do(vfGET(cfg.Prefix+"/userinfo", "Cookie", c.Name+"="+c.Value).WithHost(host))
+		run.Count("replay_requests", 1)
+		if ui.Code == 200 {
+			auth = fmt.Sprintf("cookie #%d of the archive: userinfo 200 %s", c.Seq, vfTrunc(strings.TrimSpace(string(ui.Body)), 80))
+		}
+	}
+	answer := "error"
+	if so.Code < 400 {
+		answer = "success"
+	}
+	run.Eval(fmt.Sprintf("abandoned|%s|%s|rd=%v|hold=%d|answer=%s|session-left=%v|%s,%s|name=%s", cfg.Store, method, rd != "", holdMs, answer, keyLeft != "" || auth != "", cfg.Domain, cfg.Path, c11NameClass(cfg.Name)))
+	if keyLeft != "" || auth != "" {
+		run.Count("abandoned_sign_outs_session_left", 1)
+	}
+	if so.Code >= 400 {
+		run.Count("abandoned_sign_outs_answered_with_error", 1)
+		return
+	}
+	if keyLeft != "" || auth != "" {
+		detail["redis_key_still_present"] = keyLeft
+		detail["replay"] = auth
+		run.Violation("c11:success-answer-to-abandoned-sign-out-although-session-still-stored", fmt.Sprintf("[%s] the client of a %s sign-out gave up while the store was holding the read of the ticket; the handler went on, answered %d (success) and the session is still stored: key present=%v, %s",
+			cfg.Label, method, so.Code, keyLeft != "", auth), detail)
+	}
+}
+
 func c11SessionIn(cs []*vfCookie) []*vfCookie {
 	var out []*vfCookie
 	for _, c := range cs {
@@ -1452,6 +1595,7 @@ func TestVerif_C11(t *testing.T) {
 	// the store fails for the WHOLE sign-out request: the reads of the session chain fail as well as every DEL (pairs of kinds)
 	outagePairs := []string{"ALL:err-before/err-before", "ALL:drop-before/drop-before", "ALL:nil/err-before", "ALL:err-before/drop-before", "ALL:drop-before/nil", "ALL:nil/nil", "ALL:err-before/nil", "ALL:drop-before/err-before"}
 	nSlowCfg := 0
+	var abandonJobs []job          // abandoned sign-outs (the client gives up while the store holds a read): side by side with the slow ones
 	var slowJobs, outageJobs []job // run next to the general job list (slow: each in its own goroutine; outage: one after the other)
 	for ci, c := range cfgs {
 		hs := c11Histories(run, c, ci)
@@ -1473,6 +1617,10 @@ func TestVerif_C11(t *testing.T) {
 				h := simple[(n*5+nSlowCfg)%len(simple)]
 				h.Fault = holds[(2*nSlowCfg+n)%len(holds)]
 				slowJobs = append(slowJobs, job{cfg: c, h: h})
+			}
+			// quick: two abandoned sign-outs per configuration; thorough: six
+			for n := 0; n < run.Env.Pick(2, 6); n++ {
+				abandonJobs = append(abandonJobs, job{cfg: c, race: 2*n + nSlowCfg + 1})
 			}
 			nSlowCfg++
 			continue
@@ -1523,6 +1671,10 @@ func TestVerif_C11(t *testing.T) {
 	for _, j := range slowJobs {
 		side.Add(1)
 		go func(j job) { defer side.Done(); r.one(j.cfg, j.h) }(j)
+	}
+	for _, j := range abandonJobs {
+		side.Add(1)
+		go func(j job) { defer side.Done(); r.abandon(j.cfg, j.race-1) }(j)
 	}
 	side.Add(1)
 	go func() {
@@ -1582,6 +1734,10 @@ func TestVerif_C11(t *testing.T) {
 	run.Count("commands_refused_while_store_down", int64(downCmds))
 	if run.Counter("outage_fault_histories_key_survived") == 0 || downCmds == 0 || run.Counter("slow_fault_histories") == 0 || run.Counter("slow_fault_histories_key_survived") == 0 {
 		fmt.Printf("INCONCLUSIVE property=C11 reason=no sign-out under a store failing for the whole request left the session stored / the store never went down / no held DEL observed: the error clause under outage and latency was not exercised\n")
+		t.Fail()
+	}
+	if run.Counter("abandoned_sign_outs") == 0 || run.Counter("abandoned_sign_outs_session_left") == 0 {
+		fmt.Printf("INCONCLUSIVE property=C11 reason=no abandoned sign-out observed / the client's give-up never landed before the deletion (no abandoned sign-out left the session stored): the error clause under a cancelled request was not exercised\n")
 		t.Fail()
 	}
 	if run.Counter("sign_outs_presenting_11+_session_cookies") == 0 || run.Counter("sign_outs_presenting_14+_session_cookies") == 0 {
